@@ -3,16 +3,17 @@ use crate::store::*;
 
 macro_rules! store_harness {
     ($name:ident, $k:literal, $unwind:literal) => {
-        #[kani::proof]
-        #[kani::stub(alloc::fmt::format, crate::util::fmt_stub)]
-        #[kani::stub(std::backtrace::Backtrace::capture, crate::util::bt_stub)]
-        #[kani::stub(<anyhow::Error as std::ops::Drop>::drop, crate::util::noop_err_drop)]
-        #[kani::unwind($unwind)]
-        fn $name() {
+        #[cfg_attr(kani, kani::proof)]
+        #[cfg_attr(kani, kani::stub(alloc::fmt::format, crate::util::fmt_stub))]
+        #[cfg_attr(kani, kani::stub(std::backtrace::Backtrace::capture, crate::util::bt_stub))]
+        #[cfg_attr(kani, kani::stub(<anyhow::Error as std::ops::Drop>::drop, crate::util::noop_err_drop))]
+        #[cfg_attr(kani, kani::unwind($unwind))]
+        pub fn $name() {
             history::<$k>();
         }
     };
 }
 
+store_harness!(c12_q_history_k1, 1, 5);
 store_harness!(c12_q_history_k2, 2, 6);
 store_harness!(c12_t_history_k3, 3, 7);
